@@ -7,7 +7,7 @@ CONSTANTS
   ImgLists <- Lists3x2
   PubPaths = {1, 2}
   MaxRuns = 2
-  Modes = {"image"}
+  Modes = {"sign"}
   Iters = {1, 2}
   OutPaths = {0, 1, 2}
   MaxSteps = 2
@@ -17,6 +17,6 @@ CONSTANTS
   AuthSetups <- AuthSetupsDef
   Forms <- FormsDef
   AltForm <- AltFormDef
-  Variant = "fileorder"
-INVARIANT HashInputOk
+  Variant = "byname"
+INVARIANT SigVerifies
 CHECK_DEADLOCK FALSE
